@@ -107,9 +107,9 @@ FaultScenPoints ==
 \* family "env2": two starts (two handles) with a change the CALLER makes to its own process in between - working directory,
 \* environment, descriptor limit plus a new high descriptor; the second start must see the new state only
 Env2Points ==
-  {Opt(<<U, U, U>>, NoSh, -1, FALSE, TRUE) @@ [x |-> [EnvBase EXCEPT !.wd = "/d", !.prog = p, !.cwd = c1, !.penv = e1], x2 |-> [cwd |-> c2, penv |-> e2, limit |-> l2, mask |-> sg[1], disp |-> sg[2]]] :
+  {Opt(<<U, U, U>>, NoSh, -1, FALSE, TRUE) @@ [x |-> [EnvBase EXCEPT !.wd = "/d", !.prog = p, !.cwd = c1, !.penv = e1], x2 |-> [cwd |-> c2, penv |-> e2, limit |-> l2, mask |-> sg[1], disp |-> sg[2], cl |-> sg[3]]] :
      p \in {"./c", "sub/c", "/bin/c"}, c1 \in Cwds, c2 \in Cwds, e1 \in {<<"P=1">>, <<>>}, e2 \in {<<"P=2", "Q=3">>, <<>>}, l2 \in {32, 64},
-     sg \in {<< <<>>, <<>> >>, << <<12>>, <<<<10, 1>>, <<15, 2>>>> >>}}   \* ... and its signal mask and dispositions
+     sg \in {<< <<>>, <<>>, FALSE >>, << <<12>>, <<<<10, 1>>, <<15, 2>>>>, TRUE >>}}   \* ... its signal mask and dispositions, and whether it closes its stderr
 
 \* family "tables" (C13 b): the per-stream verdict for EVERY redirect value x shorthand combination x stream, exported as a table;
 \* the harness composes it over the full product of option records ("reject iff some stream rejects", input and fork rules)
@@ -194,7 +194,8 @@ Exp2 ==
       x2 == o.x2
       highs == IF x2.limit = 64 THEN <<50, 63>> ELSE <<>>
   IN [e |-> "ret", mon |-> <<>>, r |-> 1, left |-> 0, cexec |-> 1,
-      cw |-> ChildWiring(v.eff, [k EXCEPT !.hasInput = FALSE]), cx |-> ChildExtra(v.eff),
+      \* (the second child's streams are decided by the caller's descriptors as they are NOW: stderr closed -> the null device)
+      cw |-> ChildWiring(v.eff, [k EXCEPT !.hasInput = FALSE, !.std[3] = IF x2.cl THEN FALSE ELSE @]), cx |-> ChildExtra(v.eff),
       cprog |-> IF IsRel(X.prog) THEN Joined2(x2.cwd, X.prog) ELSE X.prog,
       cenv |-> x2.penv, pcwd |-> x2.cwd, ccwd |-> X.wd, cmask |-> <<>>, cdisp |-> <<>>, pmask |-> x2.mask, pdisp |-> x2.disp]
 Script2 ==
@@ -202,6 +203,7 @@ Script2 ==
     [e |-> "call", fn |-> "pchdir", h |-> 0, dir |-> o.x2.cwd], [e |-> "call", fn |-> "psetenv", h |-> 0, env |-> o.x2.penv],
     [e |-> "call", fn |-> "plimit", h |-> 0, limit |-> o.x2.limit, open |-> IF o.x2.limit = 64 THEN <<50, 63>> ELSE <<>>],
     [e |-> "call", fn |-> "psig", h |-> 0, mask |-> o.x2.mask, disp |-> o.x2.disp],
+    [e |-> "call", fn |-> "pclose", h |-> 0, fds |-> IF o.x2.cl THEN <<2>> ELSE <<>>],
     [e |-> "call", fn |-> "new", h |-> 2], [e |-> "ret", r |-> 1],
     [StartRec EXCEPT !.h = 2], Exp2>>
 \* "no side effect" of a request rejected up front includes the handle: it is still not started afterwards
